@@ -1,7 +1,8 @@
 // c18race: search-only stress program for C18 (b).  Built with `-race`; drives the real engine
 // concurrently so that the Go race detector can exhibit the unsynchronised accesses the lockset
 // discipline flags.  Never a proof; used to confirm findings and as the failing-input search.
-//   c18race <scenario> [seconds]      scenarios: flows | cache | vacuum | quota-metrics
+//
+//	c18race <scenario> [seconds]      scenarios: flows | cache | vacuum | quota-metrics
 package main
 
 import (
